@@ -52,6 +52,10 @@ CLAIMED = {
    text='Laws.tla: every law (batch/unbatch identity, concat of split, slice-of-slice composition, map distributing over slicing / one-time shuffle / concatenation / caching / batching (batch_map) / sort, map fusion, lazy ~ eager filter ~ FilterException under catch, filter vs order-preserving selection, tile = r-fold concatenation) is instantiated at EVERY program TLC enumerates from Pipeline.tla (depth <= 1, thorough 2) with all its parameters. Design level: TLC checks that each instance is correctly stated (the two references are equal) and that the implementation-shaped model satisfies it, which also fixes the level of comparison (iteration / + len and indexing / + keys, items, key lookup). Both sides of every instance are executed on the real library and TLC judges the two REAL observations for observational equality - an oracle independent of the reference.',
    note='As C01. The comparison level of an instance is the strongest at which the model satisfies the law (capabilities of the two sides may legitimately differ, e.g. keys() with duplicate keys).',
    tech='TLA+ law operators over TLC-enumerated programs, trace validation of both sides'),
+ 'C08': dict(engine='demand', cat='model_checking', ref='DESIGN.md section 6 C08',
+   text='Demand.tla is the demand-propagation machine of the statement: a request for output positions of a stage (first k results of an iteration / the single result ds[i]) is translated stage by stage (map, lazy and eager filter, slice, batch, unbatch, items, copy, cache, catch, concatenate, thread prefetch) into the exact sequence of inputs every user function must be applied to, with read-ahead only where the statement allows it (prefetch buffer, running into the end). TLC enumerates all chain programs up to depth 3 over sources of up to 3 examples; each is executed on the real library with logging user functions - construction, a fresh iterator for EVERY prefix length k in 0..len+1, ds[i] for every i - and TLC judges the recorded call logs: nothing at construction of lazy stages, exactly the needed examples, once, in request order.',
+   note='Property-level specification (not implementation-shaped): conformance is the exact match of call sequences. Trusted: TLC, the logging twins. Key lookup ds[key] is covered through integer access of the same position only.',
+   tech='TLA+ demand-propagation machine, TLC enumeration + trace validation of real call logs'),
 }
 
 PENDING_REASON = 'check not built yet in this round (specification planned in DESIGN.md section 6); will be claimed when its check exists'
@@ -93,6 +97,8 @@ def main():
             {'name': 'pipeline', 'path': '/verif/specs/Pipeline.tla',
              'serves_properties': ['C01', 'C02', 'C03', 'C14', 'C16', 'C18'],
              'kind_free_text': 'TLA+ specs Values/Ref/Impl/Obs/Pipeline/PipelineTrace checked with TLC; harness/{build,observe,pipeline}.py bind them to the code in both directions'},
+            {'name': 'demand', 'path': '/verif/specs/Demand.tla', 'serves_properties': ['C08'],
+             'kind_free_text': 'Demand.tla / DemandTrace.tla + harness/check_demand.py'},
             {'name': 'shards', 'path': '/verif/specs/Shards.tla', 'serves_properties': ['C15'],
              'kind_free_text': 'Shards.tla / ShardsTrace.tla + harness/check_shards.py'},
             {'name': 'bucket', 'path': '/verif/specs/Bucket.tla', 'serves_properties': ['C17'],
